@@ -10,7 +10,7 @@ src, prop, name = sys.argv[1], sys.argv[2], sys.argv[3]
 props = sys.argv[4].split(",") if len(sys.argv) > 4 else [prop]
 dest = "/verif/seeded/%s" % name
 os.makedirs(dest, exist_ok=True)
-for f in os.listdir(src):
+for f in ([] if os.path.realpath(src) == os.path.realpath(dest) else os.listdir(src)):
     if os.path.isfile(os.path.join(src, f)):
         shutil.copy(os.path.join(src, f), dest)
     elif os.path.isdir(os.path.join(src, f)) and not f.endswith("build"):
